@@ -132,10 +132,38 @@ Qed.
 Lemma g_char s i : M_SmtString_char s i = nth_error (w s) i.
 Proof. reflexivity. Qed.
 
+(* ---- str_from_int (C09): for every i32, no panic; the unique numeral of x, "" for x < 0; round trips ---- *)
+Lemma g_from_int_spec x : (x <= I32MAX)%Z ->
+  exists s, M_fn_str_from_int x = Some s /\
+    ((0 <= x)%Z -> numeral (w s) /\ dec_value (w s) = x) /\ ((x < 0)%Z -> w s = []).
+Proof.
+  intros Hx. pose proof (link_str_from_int x Hx) as L. destruct (from_int_spec x) as [S1 S2].
+  destruct (M_fn_str_from_int x) as [s|]; cbn [option_map] in L.
+  - exists s. split; [reflexivity|]. split; intros H.
+    + destruct (S1 H) as (w0 & E & Hn & Hv). rewrite E in L. injection L as L. rewrite L. split; assumption.
+    + rewrite (S2 H) in L. injection L as L. exact L.
+  - destruct (Z_lt_le_dec x 0) as [H|H]; [rewrite (S2 H) in L | destruct (S1 H) as (w0 & E & _); rewrite E in L]; discriminate L.
+Qed.
+Lemma g_to_int_from_int x : (0 <= x <= I32MAX)%Z ->
+  (do s <- M_fn_str_from_int x; M_fn_str_to_int s) = Some x.
+Proof.
+  intros Hx. pose proof (link_str_from_int x ltac:(unfold I32MAX in *; lia)) as L. pose proof (to_int_from_int x Hx) as R.
+  destruct (M_fn_str_from_int x) as [s|]; cbn [option_map] in L; rewrite <- L in R; cbn [bind] in *; [|discriminate R].
+  rewrite link_str_to_int. exact R.
+Qed.
+Lemma g_from_int_unique x s : (0 <= x <= I32MAX)%Z -> numeral (w s) -> dec_value (w s) = x ->
+  option_map w (M_fn_str_from_int x) = Some (w s).
+Proof.
+  intros Hx Hn Hv. pose proof (link_str_from_int x ltac:(unfold I32MAX in *; lia)) as L. rewrite L.
+  apply from_int_unique; [lia|exact Hn|exact Hv].
+Qed.
+
 Example g_example :
   M_fn_str_lt 3 (SmtString_mk [97; 98]) (SmtString_mk [97; 99]) = Some true /\
   M_fn_str_to_int (SmtString_mk [52; 50]) = Some 42%Z /\
   M_fn_str_to_int (SmtString_mk [53; 48; 48; 48; 48; 48; 48; 48; 48; 48]) = None /\
   M_fn_str_to_int (SmtString_mk [57; 57; 57; 57; 57; 57; 57; 57; 57; 57; 57; 97]) = Some (-1)%Z /\
-  M_fn_str_to_code (SmtString_mk [196607]) = Some 196607%Z.
+  M_fn_str_to_code (SmtString_mk [196607]) = Some 196607%Z /\
+  option_map SmtString_s (M_fn_str_from_int 1907%Z) = Some [49; 57; 48; 55] /\
+  option_map SmtString_s (M_fn_str_from_int (-3)%Z) = Some [].
 Proof. repeat split; vm_compute; reflexivity. Qed.
